@@ -101,6 +101,25 @@ Definition m_chunks (inp : list Z) : list Z :=
   | _ => bad_case
   end.
 
+(** 402: events, per, policy, B, schedule (-1 = Submit, k >= 0 = Process k) -> the run of the repaired submit
+    protocol Proto.pstep on that schedule, job results from the events:
+    [finished?; loop left?; submitted; number_events; waiting (-1: none); errors; deliveries in order] *)
+Definition m_proto (inp : list Z) : list Z :=
+  match rd_events inp with
+  | Some (es, per :: po :: b :: r) =>
+    match rd_list r with
+    | Some (sched, _) =>
+      let res := job_result es (Z.to_nat per) (pol_of_z po) in
+      let acts := map (fun z => if z <? 0 then Submit else Process (Z.to_nat z)) sched in
+      let s := prun repaired res (Z.to_nat b) acts pinit in
+      (if pfinished s then 1 else 0) :: (if loop_done s then 1 else 0) :: Z.of_nat (next s) :: Z.of_nat (total s)
+        :: (match waiting s with Some w => Z.of_nat w | None => -1 end)
+        :: wr_list (map Z.of_nat (errors s)) ++ wr_list (map Z.of_nat (rev (processed s)))
+    | None => bad_case
+    end
+  | _ => bad_case
+  end.
+
 Definition run_core (id : Z) (inp : list Z) : option (list Z) :=
   if id =? 101 then Some (m_encode inp)
   else if id =? 102 then Some (m_py_read inp)
@@ -112,6 +131,7 @@ Definition run_core (id : Z) (inp : list Z) : option (list Z) :=
   else if id =? 203 then Some (m_slice_list inp)
   else if id =? 204 then Some (m_omp_ranges inp)
   else if id =? 401 then Some (m_chunks inp)
+  else if id =? 402 then Some (m_proto inp)
   else None.
 
 (** one runner per model family; the first that knows the id answers *)
